@@ -71,7 +71,7 @@ def gen_defn(rng, kind, i=0):
                                            n_reading=(1, 2), depth=1, n_shared=(0, 0))
     if kind == "direct":
         return gen.program(rng, n_state=(1, 5), n_control=(0, 3), n_calib=(0, 2), n_sensor=(0, 1),
-                           depth=2 if rng.random() < 0.5 else 3)
+                           depth=2 if rng.random() < 0.5 else 3, wraps=(i % 4 == 1))
     if kind == "fit":
         return gen.contractive_program(rng, n_state=(1, 2), n_control=(1, 2), n_calib=(0, 1),
                                        n_sensor=(1, 1), n_reading=(1, 2), depth=1, n_shared=(0, 1))
@@ -86,6 +86,8 @@ def run_unit(unit, ctx):
     defn = gen_defn(rng, kind, unit["i"])
     if defn.get("family") == "linear_in_state":
         R.stats.inc("linear_in_state_programs")
+    if any(w_ in __import__("json").dumps(defn["model"]) for w_ in ("asinsin", "acoscos", "atantan")):
+        R.stats.inc("programs_with_angle_wrap_idioms")
     fp = gen.fingerprint([defn, kind])
     R.fps_all.append(fp)
     if len(defn["control"]) >= 1 and len(defn["state"]) >= 2:
@@ -136,6 +138,14 @@ def _direct(R, rng, defn, b, cse, ctx):
             dt = -dt
         if pi >= 4 and pi % 2 == 1 and last_dt is not None:
             dt = last_dt  # same dt as the previous call on this filter, other state / control values
+        if dt != float(pt[defn["dt"]]):
+            # the substituted step must not put a |.| / angle-wrap node onto its kink (not differentiable
+            # there) or an exp term into the overflow region
+            trial = dict(pt, **defn["calibration_map"])
+            trial[defn["dt"]] = dt
+            if gen.near_kink(defn, trial) or gen.max_exp_argument(defn, trial) > gen.EXP_ARG_LIMIT:
+                dt = float(pt[defn["dt"]])
+                R.stats.inc("dt_substitutions_skipped_at_kink")
         last_dt = dt
         pt[defn["dt"]] = dt
         R.stats.inc("dt_zero_tiny_or_negative_cases" if pi in (1, 2, 3) else "dt_ordinary_cases")
